@@ -47,16 +47,16 @@ Lemma step_cons s pick s' : Rex lims s -> exec P s (LStep 1 pick) = Some s' -> R
 Proof.
   intros  (p0 & st0 & r0 & c0 & l0 & cu0 & p1 & st1 & r1 & c1 & l1 & cu1 & om & Ht0 & Ht1 & HOM & Hn & Hpa & Hf &
           Hnm0 & Hnm1 & Hok0 & Hok1 & Hx & Hreg & Hc0 & Hc1 & Homok & Homlt & HOT & HownO & Hwq0 & Hwq1 & HwqO &
-          Hv0 & Hv1 & Hal & Hq & HG & Hran & Hsub & HPR) E.
+          Hv0 & Hv1 & Hal & Hq & HW & HG & Hran & Hsub & HPR) E.
   unfold exec in E. rewrite Hf, Hn in E. cbn [Nat.ltb Nat.leb Nat.add negb] in E.
   rewrite Ht1 in E. cbn [stat] in E.
   enum0 Hok0 p0 st0 Hnm0;
   enum1 Hok1 p1 st1 Hnm1;
   cbn in Hx; try discriminate Hx; try discriminate E;
-  cbn in Hreg, Hc0, Hc1, Homok, HOT, Hwq0, Hwq1, Hv0, Hv1, Hq;
-  destruct Hreg as (Hr1 & Hr2 & Hr3 & Hr4); destruct Homok as (Hm1 & Hm2); destruct Hq as (Hq1 & Hq2 & Hq3);
+  cbn in Hreg, Hc0, Hc1, Homok, HOT, Hwq0, Hwq1, Hv0, Hv1, Hq; unfold wakeinv in HW; cbn in HW;
+  destruct Hreg as (Hr1 & Hr2 & Hr3 & Hr4); destruct Homok as (Hm1 & Hm2); destruct Hq as (Hq1 & Hq2 & Hq3 & Hq4);
   try (specialize (Hr1 eq_refl)); try (destruct (Hr2 eq_refl) as [Hr2a Hr2b]); try (specialize (Hr3 eq_refl));
-  try (specialize (Hr4 eq_refl)); try (specialize (Hq1 eq_refl)); try (specialize (Hq2 eq_refl)); try (specialize (Hq3 eq_refl));
+  try (specialize (Hr4 eq_refl)); try (specialize (Hq1 eq_refl)); try (specialize (Hq2 eq_refl)); try (specialize (Hq3 eq_refl)); try (specialize (Hq4 eq_refl));
   subst;
   (destruct cu0; try discriminate Hc0); (destruct cu1; try discriminate Hc1);
   try (assert (Xom : own s 0 = Some 0) by (apply Hm1; reflexivity));
@@ -91,7 +91,19 @@ Proof.
   all: (split; [ cbn; rewrite ?Hv0, ?Hv1; reflexivity |]).
   all: (split; [ cbn; rewrite ?Hv0, ?Hv1; reflexivity |]).
   all: (split; [ exact Hal |]).
-  all: (split; [ unfold qfacts; cbn; rewrite ?EQ; (split; [|split]); intros XX; try discriminate XX; try assumption; try reflexivity; try congruence |]).
+  all: (split; [ unfold qfacts; cbn; rewrite ?EQ; (split; [|split; [|split]]); intros XX; try discriminate XX; try assumption; try reflexivity; try congruence |]).
+  all: (split; [ unfold wakeinv; cbn;
+                 first [ (intros XX; discriminate XX)
+                       | (intros _; right; left; reflexivity)
+                       | (intros _; left; split; [first [assumption | reflexivity | (rewrite ?EQ; reflexivity)] | reflexivity])
+                       | (intros _; destruct (HW eq_refl) as [[HWq HWv]|[HWp|[iw [HWi [HWs HWpc]]]]];
+                          [ first [discriminate HWv | (left; split; [exact HWq | reflexivity])]
+                          | first [discriminate HWp | (right; left; reflexivity)]
+                          | right; right; exists iw; split; [exact HWi|]; unfold pendp; cbn; unfold upd; cbn;
+                            try (match goal with Hc : thr _ (S (S ?k)) = _ |- context [Nat.eqb iw ?k] =>
+                                   let EW := fresh "EW" in destruct (Nat.eqb iw k) eqn:EW;
+                                   [apply Nat.eqb_eq in EW; subst iw; cbn in HWs; rewrite Hc in HWs; discriminate HWs|] end);
+                            split; [exact HWs|exact HWpc] ]) ] |]).
   all: (split; [ cbn; rewrite ?map_app; cbn; rewrite ?EQ in *; rewrite HG; cbn; rewrite <- ?app_assoc; reflexivity |]).
   all: (split; [ first [exact Hran | (intros cc tt Hin; apply in_app_or in Hin; destruct Hin as [Hin|[Hin|[]]]; [eapply Hran; exact Hin | inversion Hin; lia])] |]).
   all: refine (conj Hsub _).
